@@ -21,6 +21,9 @@ type Config struct {
 	MaxFields  int
 	Depth      int // type nesting depth
 	NoUnions   bool
+	// SpreadRedact makes sure go.redact and go.nolog each occur on a field of every
+	// type category present in the program (C15: "fields of every type").
+	SpreadRedact bool
 }
 
 // DefaultConfig is the main-stream configuration.
@@ -153,7 +156,68 @@ func Generate(r *rng.R, cfg Config) *Program {
 			g.p.Root.Includes = append(g.p.Root.Includes, f)
 		}
 	}
+	if cfg.SpreadRedact {
+		g.spreadRedact()
+	}
 	return g.p
+}
+
+// category of a field type for the redaction spread.
+func typeCategory(t *Type) string {
+	pre := ""
+	if t.K == Named && t.Ref.Kind == Typedef {
+		pre = "typedef-of-"
+	}
+	root := t.Root()
+	switch root.K {
+	case Bool, I8, I16, I32, I64, Double:
+		return pre + "number"
+	case String:
+		return pre + "string"
+	case Binary:
+		return pre + "binary"
+	case List:
+		return pre + "list"
+	case Set:
+		return pre + "set"
+	case Map:
+		return pre + "map"
+	}
+	if root.Ref.Kind == Enum {
+		return pre + "enum"
+	}
+	return pre + "struct"
+}
+
+func (g *generator) spreadRedact() {
+	byCat := map[string][]*Field{}
+	var cats []string
+	add := func(kind string, fs []*Field) {
+		for _, f := range fs {
+			c := kind + " " + typeCategory(f.Type)
+			if _, ok := byCat[c]; !ok {
+				cats = append(cats, c)
+			}
+			byCat[c] = append(byCat[c], f)
+		}
+	}
+	for _, f := range g.p.Files {
+		for _, d := range f.Defs {
+			if d.Kind == Struct || d.Kind == Union || d.Kind == Exception {
+				add(d.Kind.String(), d.Fields)
+			}
+		}
+		for _, s := range f.Services {
+			for _, fn := range s.Funcs {
+				add("args", fn.Args)
+			}
+		}
+	}
+	for _, c := range cats {
+		fs := byCat[c]
+		fs[g.r.Intn(len(fs))].Redact = true
+		fs[g.r.Intn(len(fs))].NoLog = true
+	}
 }
 
 func contains(fs []*File, f *File) bool {
